@@ -25,3 +25,26 @@ Definition expand_shape : list byte := list_byte_of_string
 (* (TestScript).doCmdCmp — modelled by do_cmd_cmp (UpdateScripts off) *)
 Definition cmp_shape : list byte := list_byte_of_string
   "name1,name2:=args[0],args[1];if(name1==name2){ts.Fatalf(S);}text1:=ts.ReadFile(name1);absName2:=ts.MkAbs(name2);data,err:=os.ReadFile(absName2);ts.Check(err);text2:=string(data);if(env){text2=ts.expand(text2);}eq:=text1==text2;if(neg){if(eq){ts.Fatalf(S,name1,name2);}return ;}if(eq){return ;}if(ts.params.UpdateScripts&&!env){if(scriptFile,ok:=ts.scriptFiles[absName2];ok){ts.scriptUpdates[scriptFile]=text1;return ;}}unifiedDiff:=diff.Diff(name1,[]byte(text1),name2,[]byte(text2));ts.Logf(S,unifiedDiff);ts.Fatalf(S,name1,name2);".
+
+(* ---- the script level (TsParse/TsScript.v)
+
+   the line loop of (TestScript).run, reduced by gen_tsparse_shape.go to what script_lines /
+   run_lines mirror: the script is consumed while it is not empty; the next line is the text up to
+   the first line terminator, which is dropped, or the whole rest when there is none; a line with
+   the phase prefix is logged and skipped (the tokenizer would find no word in it either); every
+   other line goes to runLine.  "..." stands for the bookkeeping of group TsRun. *)
+Definition runloop_shape : list byte := list_byte_of_string
+  "for(;script!=S;){ts.lineno++;var(line:string);if(i:=strings.Index(script,S);i>=0){line,script=script[:i],script[i+1:];}else{line,script=script,S;}if(strings.HasPrefix(line,S)){...continue;}ok:=ts.runLine(line);...}".
+
+(* (TestScript).cmdEnv — modelled by cmd_env / cmd_env_arg (arguments) and env_listing (no
+   argument: nothing but ts.Logf happens, the list is only read) *)
+Definition cmdenv_shape : list byte := list_byte_of_string
+  "if(neg){ts.Fatalf(S);}if(len(args)==0){printed:=make(map[string]bool);for(_,kv:=range ts.env){k:=envvarname(kv[:strings.Index(kv,S)]);if(!printed[k]){printed[k]=true;ts.Logf(S,k,ts.envMap[k]);}}return ;}for(_,env:=range args){i:=strings.Index(env,S);if(i<0){ts.Logf(S,env,ts.Getenv(env));continue;}ts.Setenv(env[:i],env[i+1:]);}".
+
+(* (TestScript).Setenv — setenv; (TestScript).Getenv — getenv; (TestScript).setEnv — setup_env *)
+Definition setenv_shape : list byte := list_byte_of_string
+  "ts.env=append(ts.env,key+S+value);ts.envMap[envvarname(key)]=value;".
+Definition getenv_shape : list byte := list_byte_of_string
+  "return ts.envMap[envvarname(key)];".
+Definition setenvall_shape : list byte := list_byte_of_string
+  "ts.env=vars;ts.envMap=make(map[string]string);for(_,kv:=range ts.env){if(i:=strings.Index(kv,S);i>=0){ts.envMap[envvarname(kv[:i])]=kv[i+1:];}}".
